@@ -301,3 +301,320 @@ def resolve_renames(prog):
                             if cn == n.op and not cur_by[(u, cn)].static:
                                 n.op = rn
     return dict(('%s::%s' % k, v) for k, v in mapping.items())
+
+
+# ------------------------------------------------------------------------------------------------------------
+# 3. procedure inlining of new static helpers
+"""
+Extracting a block into a new static helper is the most common behaviour-preserving edit.  A static function that
+the reference tree does not know (after rename resolution) is expanded at its call sites, at the level of the IR:
+
+    s(... f(a, &x) ...)      ->     T p = a;  RT ret;  { body of f with *q -> x, `return e` -> ret = e; goto end }
+                                    end: ;  s(... ret ...)
+
+only where the call is evaluated first and unconditionally in its statement (expression statements, initialisers,
+returns, `if` conditions; the left-most operand of && / ||), so that hoisting it in front of the statement keeps the
+order of effects.  Pointer parameters whose argument is `&lvalue` and that the helper never re-seats are substituted
+by reference; the others are copied into fresh locals.  Helpers with labels, static locals, or that call themselves
+are left alone, as are call sites in loop conditions.  A helper whose every reference was expanded is dropped from the
+program, so that rules which look for "the function that does X" see one function, as on the reference tree.
+Everything is keyed on decl ids; clones get fresh ids.  The unchanged tree has no new helpers: nothing happens there.
+"""
+
+_INL = [0]
+
+
+def _is_pure_lvalue(e):
+    e = strip(e)
+    if e is None:
+        return False
+    if e.k == 'var':
+        return True
+    if e.k == 'mem':
+        return _is_pure_lvalue(e.a[0])
+    if e.k == 'un' and e.op == '*':
+        return _is_pure_lvalue(e.a[0]) and strip(e.a[0]).k == 'var'
+    if e.k == 'idx':
+        return _is_pure_lvalue(e.a[0]) and _pure(e.a[1])
+    return False
+
+
+def _stmt_count(body):
+    return sum(1 for _ in walk_stmts(body))
+
+
+def _helper_ok(f):
+    if not f.static or f.body is None:
+        return False
+    if _stmt_count(f.body) > 70:
+        return False
+    for s in walk_stmts(f.body):
+        if s.k in ('label', 'goto'):
+            return False
+        if s.k == 'decl' and s.static:
+            return False
+    from .ir import callee_name, calls_in
+    from .program import all_exprs
+    for ex in all_exprs(f):
+        for c in calls_in(ex):
+            if callee_name(c) == f.name:
+                return False
+        for n in walk(ex):
+            if n.k == 'stmtexpr':
+                return False
+    return True
+
+
+def _reseated(f, p):
+    """does the helper assign to its parameter p itself?"""
+    from .program import all_exprs
+    for ex in all_exprs(f):
+        for n in walk(ex):
+            if (n.k == 'bin' and n.op.endswith('=') and n.op not in ('==', '!=', '<=', '>=')) or \
+                    (n.k == 'un' and n.op in ('++', '--')):
+                l = strip(n.a[0])
+                if l is not None and l.k == 'var' and l.decl == p.decl:
+                    return True
+    return False
+
+
+def _clone_e(e, vmap, refsub):
+    if e is None:
+        return None
+    if e.k == 'un' and e.op == '*' and e.a:
+        b = e.a[0]
+        while b is not None and b.k == 'cast' and b.a and b.macro != 'explicit':
+            b = b.a[0]
+        if b is not None and b.k == 'var' and b.decl in refsub:
+            return _clone_e(refsub[b.decl], {}, {})
+    if e.k == 'var':
+        if e.decl in refsub:
+            x = _clone_e(refsub[e.decl], {}, {})
+            return E('un', op='&', a=[x], t=e.t, dt=e.dt, file=e.file, line=e.line)
+        if e.decl in vmap:
+            v = vmap[e.decl]
+            return E('var', op=v.op, t=v.t, dt=v.dt, decl=v.decl, dk='VarDecl', file=e.file, line=e.line)
+    c = E(e.k, op=e.op, a=[_clone_e(x, vmap, refsub) for x in e.a], t=e.t, dt=e.dt, val=e.val, decl=e.decl, dk=e.dk,
+          arrow=e.arrow, file=e.file, line=e.line, uid=e.uid, post=e.post, body=None, macro=e.macro)
+    return c
+
+
+def _clone_s(s, vmap, refsub, ret, endlabel, newlocals, tag, tail):
+    """clone statement s of the helper; `tail` = s is the last statement of the helper body (no goto needed)"""
+    if s is None:
+        return None
+    if isinstance(s, list):
+        out = []
+        for i, x in enumerate(s):
+            out.append(_clone_s(x, vmap, refsub, ret, endlabel, newlocals, tag, tail and i == len(s) - 1))
+        return out
+    if s.k == 'return':
+        body = []
+        if s.e is not None and ret is not None:
+            rv = E('var', op=ret.op, t=ret.t, dt=ret.dt, decl=ret.decl, dk='VarDecl', file=s.file, line=s.line)
+            body.append(S('expr', e=E('bin', op='=', a=[rv, _clone_e(s.e, vmap, refsub)], t=ret.t, dt=ret.dt, file=s.file,
+                                      line=s.line), file=s.file, line=s.line))
+        elif s.e is not None:
+            body.append(S('expr', e=_clone_e(s.e, vmap, refsub), file=s.file, line=s.line))
+        if not tail:
+            body.append(S('goto', label=endlabel, file=s.file, line=s.line))
+        return S('compound', body=body, file=s.file, line=s.line)
+    if s.k == 'decl':
+        v = s.var
+        nv = E('var', op=v.op, t=v.t, dt=v.dt, decl='%s@%s' % (v.decl, tag), dk='VarDecl', file=v.file, line=v.line)
+        vmap[v.decl] = nv
+        newlocals[nv.decl] = nv
+        return S('decl', var=nv, e=_clone_e(s.e, vmap, refsub), static=False, file=s.file, line=s.line, macro=s.macro)
+    c = S(s.k, e=_clone_e(s.e, vmap, refsub) if s.e is not None else None, label=s.label, file=s.file, line=s.line,
+          static=s.static, macro=s.macro, uid=s.uid, endline=s.endline, var=s.var)
+    # a return nested in a branch is a tail return only if the branch itself is in tail position
+    inner_tail = tail and s.k in ('compound', 'if')
+    for attr in ('body', 'then', 'els'):
+        x = getattr(s, attr)
+        if x is not None:
+            setattr(c, attr, _clone_s(x, vmap, refsub, ret, endlabel, newlocals, tag,
+                                      inner_tail if not (s.k == 'if' and attr == 'body') else False))
+    if s.init is not None:
+        c.init = _clone_s(s.init, vmap, refsub, ret, endlabel, newlocals, tag, False) if isinstance(s.init, (S, list)) \
+            else _clone_e(s.init, vmap, refsub)
+    if s.inc is not None:
+        c.inc = _clone_e(s.inc, vmap, refsub) if not isinstance(s.inc, (S, list)) else s.inc
+    return c
+
+
+def _first_call(e, cands):
+    """the candidate call that is evaluated first and unconditionally in e, or None"""
+    from .ir import callee_name
+    if e is None:
+        return None
+    if e.k == 'cast':
+        return _first_call(e.a[0], cands) if e.a else None
+    if e.k == 'call':
+        args = e.a[1:]
+        withcall = [a for a in args if any(n.k == 'call' for n in walk(a))]
+        if withcall:
+            if len(withcall) == 1 and all(_pure(a) for a in args if a is not withcall[0]):
+                return _first_call(withcall[0], cands)
+            return None
+        n = callee_name(e)
+        c0 = strip(e.a[0]) if e.a else None
+        if n in cands and c0 is not None and c0.k == 'var' and c0.dk == 'FunctionDecl':
+            return e
+        return None
+    if e.k == 'un' and e.op in ('!', '-', '~', '+'):
+        return _first_call(e.a[0], cands)
+    if e.k == 'bin':
+        if e.op.endswith('=') and e.op not in ('==', '!=', '<=', '>='):
+            if _is_pure_lvalue(e.a[0]):
+                return _first_call(e.a[1], cands)
+            return None
+        if e.op in ('&&', '||', ','):
+            return _first_call(e.a[0], cands)
+        l = _first_call(e.a[0], cands)
+        if l is not None:
+            return l
+        if _pure(e.a[0]):
+            return _first_call(e.a[1], cands)
+        return None
+    if e.k == 'cond':
+        return _first_call(e.a[0], cands)
+    return None
+
+
+def _replace(e, old, new):
+    if e is old:
+        return new
+    if e is None:
+        return None
+    e.a = [_replace(x, old, new) for x in e.a]
+    return e
+
+
+def inline_new_helpers(prog, max_rounds=3):
+    from .program import rel, all_exprs
+    from .ir import callee_name
+    known = set((r['unit'], r['name']) for r in reference(prog.config))
+    if not known:
+        return []
+    done = []
+    for rnd in range(max_rounds):
+        cands_by_unit = {}
+        for f in prog.funcs.values():
+            if (rel(f.unit), f.name) in known or not _helper_ok(f):
+                continue
+            cands_by_unit.setdefault(f.unit, {})[f.name] = f
+        if not cands_by_unit:
+            break
+        changed = False
+
+        def expand(g, lst):
+            nonlocal changed
+            i = 0
+            guard = 0
+            while i < len(lst):
+                s = lst[i]
+                if s is None:
+                    i += 1
+                    continue
+                # nested blocks first
+                for attr in ('body', 'then', 'els'):
+                    x = getattr(s, attr)
+                    if x is None:
+                        continue
+                    if isinstance(x, list):
+                        expand(g, x)
+                    elif x.k == 'compound':
+                        if x.body is None:
+                            x.body = []
+                        expand(g, x.body)
+                    else:
+                        wrap = S('compound', body=[x], file=x.file, line=x.line)
+                        expand(g, wrap.body)
+                        if len(wrap.body) != 1 or wrap.body[0] is not x:
+                            setattr(s, attr, wrap)
+                if s.k in ('expr', 'decl', 'return', 'if') and s.e is not None and not (s.k == 'decl' and s.static):
+                    cands = cands_by_unit.get(g.unit, {})
+                    c = _first_call(s.e, set(k for k in cands if cands[k] is not g))
+                    if c is not None and guard < 50:
+                        guard += 1
+                        f = cands[callee_name(c)]
+                        args = c.a[1:]
+                        if len(args) == len(f.params):
+                            _INL[0] += 1
+                            tag = 'i%d' % _INL[0]
+                            pre = []
+                            vmap, refsub, newlocals = {}, {}, {}
+                            for p, a in zip(f.params, args):
+                                sa = strip(a)
+                                while sa is not None and sa.k == 'cast' and sa.a:
+                                    sa = strip(sa.a[0])
+                                if (p.t or '').rstrip().endswith('*') and sa is not None and sa.k == 'un' and sa.op == '&' \
+                                        and _is_pure_lvalue(sa.a[0]) and not _reseated(f, p):
+                                    refsub[p.decl] = sa.a[0]
+                                else:
+                                    nv = E('var', op=p.op, t=p.t, dt=p.dt, decl='%s@%s' % (p.decl, tag), dk='VarDecl',
+                                           file=c.file, line=c.line)
+                                    vmap[p.decl] = nv
+                                    newlocals[nv.decl] = nv
+                                    pre.append(S('decl', var=nv, e=a, static=False, file=s.file, line=s.line))
+                            ret = None
+                            if (f.rtype or '').strip() != 'void':
+                                ret = E('var', op='%s_ret_%s' % (f.name, tag), t=f.rtype, dt=f.rdtype,
+                                        decl='ret@%s' % tag, dk='VarDecl', file=c.file, line=c.line)
+                                newlocals[ret.decl] = ret
+                                pre.append(S('decl', var=ret, e=None, static=False, file=s.file, line=s.line))
+                            endlabel = 'end@%s' % tag
+                            fb = f.body if isinstance(f.body, list) else [f.body]
+                            body = _clone_s(fb, vmap, refsub, ret, endlabel, newlocals, tag, True)
+                            post = [S('label', label=endlabel, body=None, var=endlabel, file=s.file, line=s.line)]
+                            # the statement itself, with the call replaced by the result
+                            if ret is not None:
+                                rv = E('var', op=ret.op, t=ret.t, dt=ret.dt, decl=ret.decl, dk='VarDecl', file=c.file,
+                                       line=c.line)
+                                s.e = _replace(s.e, c, rv)
+                                tailstmts = [s]
+                            else:
+                                if strip(s.e) is c or s.e is c:
+                                    tailstmts = []
+                                else:
+                                    s.e = _replace(s.e, c, E('int', val=0, t='int', file=c.file, line=c.line))
+                                    tailstmts = [s]
+                            new = pre + body + post + tailstmts
+                            lst[i:i + 1] = new
+                            g.locals.update(newlocals)
+                            done.append((f.name, g.name, c.file, c.line))
+                            changed = True
+                            i += len(new) - len(tailstmts)
+                            continue
+                i += 1
+        for g in list(prog.funcs.values()):
+            if g.body is None:
+                continue
+            if isinstance(g.body, list):
+                expand(g, g.body)
+            elif g.body.k == 'compound':
+                if g.body.body is None:
+                    g.body.body = []
+                expand(g, g.body.body)
+        if not changed:
+            break
+    # drop helpers that are no longer referenced
+    if done:
+        refs = set()
+        for g in prog.funcs.values():
+            if g.body is None:
+                continue
+            for ex in all_exprs(g):
+                for n in walk(ex):
+                    if n.k == 'var' and n.dk == 'FunctionDecl':
+                        refs.add((g.unit, n.op, g.name))
+        for f in list(prog.funcs.values()):
+            if (rel(f.unit), f.name) in known or not f.static or f.name not in set(d[0] for d in done):
+                continue
+            if not any(u == f.unit and nm == f.name and by != f.name for (u, nm, by) in refs):
+                del prog.funcs[f.qname]
+                prog.by_name[f.name] = [x for x in prog.by_name.get(f.name, []) if x is not f]
+        prog._callgraph = None
+        prog._callers = None
+        prog._fp_targets = None
+    return done
